@@ -172,9 +172,9 @@ func c07RunDataset(c *fw.Ctx, set []t6Cell, split int, only *c07Case) {
 
 func init() {
 	fw.Register(&fw.Prop{
-		ID:    "C07",
-		Level: "exploration",
-		Rule: "datasets (4 rich sets + all single cells (quick) / + all pairs (thorough)) × storage {memory, disk, split} × clock {period end, mid-period} × (asOf, until) over {absent} ∪ {every boundary and mid-period instant from 1 s before the data to 2 s after, as RFC3339} ∪ {relative -1s, -2500ms, -5s} (asOf >= until pairs included) × grouping {native, GROUP BY x, period(2s), _ with period(3s)}; oracle: interval oracle of C06 with the must-window (asOf, until] ∩ table window (every native period wholly inside is covered exactly once with values recomputed from raw points), no row ending at or before asOf or beginning at or after until, straddling periods unconstrained, empty ranges give an error or no rows, refusals only for asOf before the table window or sub-period ranges, default window brackets (now - retention, now] within one resolution; non-trivial = range that keeps some but not all points",
+		ID:          "C07",
+		Level:       "exploration",
+		Rule:        "datasets (4 rich sets + all single cells (quick) / + all pairs (thorough)) × storage {memory, disk, split} × clock {period end, mid-period} × (asOf, until) over {absent} ∪ {every boundary and mid-period instant from 1 s before the data to 2 s after, as RFC3339} ∪ {relative -1s, -2500ms, -5s} (asOf >= until pairs included) × grouping {native, GROUP BY x, period(2s), _ with period(3s)}; oracle: interval oracle of C06 with the must-window (asOf, until] ∩ table window (every native period wholly inside is covered exactly once with values recomputed from raw points), no row ending at or before asOf or beginning at or after until, straddling periods unconstrained, empty ranges give an error or no rows, refusals only for asOf before the table window or sub-period ranges, default window brackets (now - retention, now] within one resolution; non-trivial = range that keeps some but not all points",
 		Assumptions: []string{"relative offsets are relative to the database (virtual) clock"},
 		Shards:      func(tier string) int { return 16 },
 		Budget: func(tier string) time.Duration {
